@@ -243,6 +243,7 @@ func gen(ctx *core.Ctx) {
 	genGlue(ctx)
 	genFuzz(ctx)
 	genStructured(ctx)
+	genDegenerate(ctx)
 	ctx.Sink.Extra["hangs_per_entry_point"] = hangs
 	ctx.Sink.Extra["excluded"] = []string{
 		"cipher.AEAD Seal/Open called directly with a wrong-size nonce (standard-library contract)",
